@@ -262,8 +262,9 @@ def compare(node: ast.Compare, env: Env) -> Term:
         a_node, b_node = operands[i], operands[i + 1]
         sym = CMP_OPS[type(op)]
         # ``next(X, False) is not False``  ==  X yields something
-        if sym == "is not" and is_const(b_node, False) and isinstance(a_node, ast.Call) and _is_name(a_node.func, "next") and len(a_node.args) == 2 and is_const(a_node.args[1], False):
-            parts.append(nonempty(a_node.args[0], env))
+        if sym in ("is not", "is", "!=", "==") and is_const(b_node, False) and isinstance(a_node, ast.Call) and _is_name(a_node.func, "next") and len(a_node.args) == 2 and is_const(a_node.args[1], False):
+            ne = nonempty(a_node.args[0], env)
+            parts.append(ne if sym in ("is not", "!=") else neg(ne))
             continue
         a, b = T(a_node, env), T(b_node, env)
         if sym == ">":
@@ -313,6 +314,10 @@ def call(node: ast.Call, env: Env) -> Term:
             ge = args[0]
             kind = "forall" if name == "all" else "exists"
             return quantify(kind, list(ge.generators), lambda e: T(ge.elt, e), env)
+        if name in ("all", "any") and len(args) == 1 and isinstance(args[0], (ast.Tuple, ast.List)):
+            # any((a, b, c)) / all([a, b]) over a display: a plain disjunction / conjunction (order irrelevant)
+            items = [T(e, env) for e in args[0].elts]
+            return mk_and(items) if name == "all" else mk_or(items)
         if name in ("all", "any") and len(args) == 1:
             inner = env.child()
             dom = ("iter", T(args[0], env))
